@@ -719,6 +719,7 @@ def model_sources(chk, gen_specs):
         out.append(("model:rich-ttf/%d" % i, M.rich_ttf(rng, upem=rng.choice([1000, 2048]))[0], -1, ("reorder", "scale")))
         out.append(("model:rich-cff/%d" % i, M.rich_cff(rng, upem=rng.choice([1000, 2048]), colr1=bool(i % 2 == 0))[0], -1, ("reorder", "scale")))
     out.append(("model:svg", M.svg_font()[0], -1, ("reorder",)))
+    out.append(("model:ttf-point-matched", M.point_matched_ttf()[0], -1, ("reorder", "scale")))
     return out
 
 
@@ -835,7 +836,9 @@ class _Background:
 
 def run(chk):
     chk.rule = ("one case = (font, transformation): reorderGlyphs with a seeded permutation keeping glyph 0 (reverse, rotate, random, "
-                "swap-two) or scale_upem to a new units-per-em (1000<->2048, x2, /2, x3/2, odd); distinct by (font, permutation/target); "
+                "swap-two) or scale_upem to a new units-per-em (1000<->2048, x2, /2, x3/2, odd); model fonts get every kind, corpus "
+                "fonts in the quick tier the random permutation plus one seeded other and two seeded targets (one each for fonts "
+                "over 400 glyphs); distinct by (font, permutation/target); "
                 "non-trivial = reorder that moves >= 2 glyphs of a font with a gid-indexed layout/composite/variation structure, or a "
                 "scale with factor != 1 yielding >= 20 distinct design-unit numbers")
     t0 = time.time()
